@@ -191,3 +191,6 @@ func verifHB(on bool)             {}
 func verifMapOrder(rev bool)      {}
 func verifPreemptBound(n int)     {}
 func verifIsConcrete(x interface{}) bool { return true }
+
+// verifSleeps returns the durations passed to time.Sleep so far (engine only).
+func verifSleeps() []int64 { return nil }
